@@ -378,6 +378,8 @@ def to_str(I, v, spec=""):
             return v.map(lambda x: format(x, spec))
         except (ValueError, TypeError):
             return to_str(I, concretize(I, v), spec)
+    if isinstance(v, SymStr) and not spec:
+        return v                      # str(s) / "%s" of a str is the str itself
     if isinstance(v, Sym):
         return SymText(v, spec)
     if isinstance(v, (list, tuple, dict)) and not is_plain(v):
@@ -1965,15 +1967,36 @@ def make_stub_modules(I):
 
     def q_init(I_, args, kw):
         args[0].attrs["_queue"] = []
+        args[0].attrs["_maxsize"] = args[1] if len(args) > 1 else kw.get("maxsize", 0)
+
+    def q_len(I_, qq):
+        return B["len"].fn(I_, [qq], {})
+
+    def q_full(I_, args, kw):
+        ms = args[0].attrs.get("_maxsize", 0)
+        if not I_.truth(I_.compare(ast.Gt(), ms, 0)):
+            return False
+        return I_.truth(I_.compare(ast.GtE(), q_len(I_, args[0].attrs["_queue"]), ms))
+
+    def q_empty(I_, args, kw):
+        return I_.compare(ast.Eq(), q_len(I_, args[0].attrs["_queue"]), 0)
 
     def q_qsize(I_, args, kw):
-        return len(args[0].attrs["_queue"])
+        return q_len(I_, args[0].attrs["_queue"])
 
     def q_put(I_, args, kw):
-        args[0].attrs["_queue"].append(args[1])
+        if q_full(I_, args, kw):
+            raise PyRaise(Instance_of(q.ns["QueueFull"]))
+        qq = args[0].attrs["_queue"]
+        if isinstance(qq, SymList):
+            qq.sym_method(I_, "append", [args[1]], {})
+        else:
+            qq.append(args[1])
 
     def q_get(I_, args, kw):
         qq = args[0].attrs["_queue"]
+        if isinstance(qq, SymList):
+            raise Unsupported("Queue.get_nowait on a symbolic-length queue")
         if not qq:
             raise PyRaise(Instance_of(q.ns["QueueEmpty"]))
         return qq.pop(0)
@@ -1981,7 +2004,11 @@ def make_stub_modules(I):
     qe.is_exc = True
     q.ns["QueueEmpty"] = qe
     m.ns["QueueEmpty"] = qe
-    for nm, fnc in (("__init__", q_init), ("qsize", q_qsize), ("put_nowait", q_put), ("get_nowait", q_get)):
+    qf = ClassObj("QueueFull", [B["Exception"]], {}, q, "asyncio.QueueFull")
+    qf.is_exc = True
+    q.ns["QueueFull"] = qf
+    m.ns["QueueFull"] = qf
+    for nm, fnc in (("__init__", q_init), ("qsize", q_qsize), ("put_nowait", q_put), ("get_nowait", q_get), ("full", q_full), ("empty", q_empty)):
         f = NativeFn("Queue." + nm, fnc); f.is_method = True
         Q.ns[nm] = f
     q.ns["Queue"] = Q
@@ -2007,6 +2034,36 @@ def make_stub_modules(I):
         except (ValueError, TypeError, MemoryError, RecursionError) as e:
             I_.raise_("ValueError", str(e))
     m.ns["literal_eval"] = NativeFn("ast.literal_eval", literal_eval)
+    m = mod("itertools")
+
+    class Cycle:
+        def __init__(self, items):
+            self.items = list(items)
+            self.i = 0
+
+    def cycle(I_, args, kw):
+        c = Cycle(I_.iterate_concrete(args[0]))
+        return c
+    m.ns["cycle"] = NativeFn("itertools.cycle", cycle)
+    m.ns["_Cycle"] = Cycle
+
+    def _next(I_, args, kw):
+        it = args[0]
+        if isinstance(it, Cycle):
+            if not it.items:
+                I_.raise_("StopIteration")
+            v = it.items[it.i % len(it.items)]
+            it.i += 1
+            return v
+        if isinstance(it, list):
+            # result of a generator expression (evaluated eagerly): consume from the front
+            if it:
+                return it.pop(0)
+            if len(args) > 1:
+                return args[1]
+            I_.raise_("StopIteration")
+        I_.raise_("TypeError", "'%s' object is not an iterator" % _tn(it))
+    B["next"] = NativeFn("next", _next)
     m = mod("cmd")
     m.ns["Cmd"] = ClassObj("Cmd", [B["object"]], {}, m, "cmd.Cmd")
     m = mod("random")
